@@ -581,6 +581,7 @@ func runC19(c *sim.Ctx) {
 		c.Log.Add("S", "step", "%s", l)
 	}
 	c.Eval(1)
+	c.State(mode, star, len(native) == 0, len(native) > 20, len(script))
 	c.Nontrivial = len(native) > 0
 	if leak != "" {
 		c.Fail("goroutine-leak", "leak:"+firstWord(leak), fmt.Sprintf("%s: a goroutine of the bubble was still blocked when the scenario ended: %s", query, firstLine(leak)), map[string]interface{}{"script": script, "synctest": leak})
